@@ -11,6 +11,7 @@ package synth
 import (
 	"errors"
 	"fmt"
+	"reflect"
 	"regexp"
 	"strings"
 	"time"
@@ -1057,6 +1058,30 @@ func EffectTail(s string) (int, error) {
 	return tryEmit(s)
 }
 
+// EffectPages: effect oracles called inside the callback literal handed to a Callback oracle.
+func EffectPages(n int) (int, error) {
+	seen := 0
+	emit("list")
+	err := listPages(n, func(page []string) error {
+		for _, s := range page {
+			seen++
+			if s == "x" {
+				continue
+			}
+			if _, err := tryEmit(s); err != nil {
+				return err
+			}
+		}
+		emit("page")
+		if seen > 5 {
+			return errStop
+		}
+		return nil
+	})
+	emit("end")
+	return seen, err
+}
+
 // RefusedEffectInExpr: an effectful call inside an expression.
 func RefusedEffectInExpr(s string) bool {
 	return emitTwice(s) == nil
@@ -1107,6 +1132,157 @@ func UseFill(data string) (string, int, int, []string, error) {
 	a := Counter{Log: []string{"first"}}
 	err := fillFrom(data+"!", &a)
 	return r.Name, r.N, a.N, a.Log, err
+}
+
+// ---- element links: a pointer appended to a list field and written through afterwards ----
+
+type Step struct {
+	Kind string
+	Err  error
+}
+
+type Report struct {
+	Name  string
+	Steps []*Step
+}
+
+func stepFailed(s *Step) bool { return s.Err != nil && s.Kind != "soft" }
+
+// record has NonNil: it writes through rep (in/out) and keeps the element it appended in step with the list.
+func record(rep *Report, kind string, n int) error {
+	rep.Steps = append(rep.Steps, &Step{Kind: "first"})
+	var st *Step
+	if n < 0 {
+		st = &Step{Kind: kind, Err: errors.New("negative")}
+	} else {
+		st = &Step{Kind: kind}
+	}
+	rep.Steps = append(rep.Steps, st)
+	if stepFailed(st) {
+		return st.Err
+	}
+	if n > 3 {
+		st.Err = fmt.Errorf("too large: %d", n)
+		if stepFailed(st) {
+			return st.Err
+		}
+		st.Kind = st.Kind + "!"
+	}
+	rep.Steps = append(rep.Steps, &Step{Kind: "last"})
+	for i := 0; i < n; i++ {
+		st.Kind += "+"
+	}
+	rep.Name = kind
+	return nil
+}
+
+func LinkedElem(kind string, n int) (string, []string, []string, error) {
+	rep := Report{Name: "r"}
+	err := record(&rep, kind, n)
+	var kinds, errs []string
+	for _, s := range rep.Steps {
+		kinds = append(kinds, s.Kind)
+		if s.Err != nil {
+			errs = append(errs, "err")
+		} else {
+			errs = append(errs, "")
+		}
+	}
+	return rep.Name, kinds, errs, err
+}
+
+// RefusedLinkReset: the list is replaced between the append and the write.
+func RefusedLinkReset(kind string) int {
+	rep := Report{}
+	st := &Step{Kind: kind}
+	rep.Steps = append(rep.Steps, st)
+	rep.Steps = nil
+	st.Kind = "x"
+	return len(rep.Steps)
+}
+
+// RefusedAppendThenWrite: a pointer put in a plain list and written through afterwards.
+func RefusedAppendThenWrite(kind string) string {
+	var list []*Step
+	st := &Step{Kind: kind}
+	list = append(list, st)
+	st.Kind = "changed"
+	return list[0].Kind
+}
+
+// RefusedLinkTwice: the same pointer sits in two lists.
+func RefusedLinkTwice(kind string) int {
+	a, b := Report{}, Report{}
+	st := &Step{Kind: kind}
+	a.Steps = append(a.Steps, st)
+	b.Steps = append(b.Steps, st)
+	st.Kind = "x"
+	return len(a.Steps) + len(b.Steps)
+}
+
+// counterOf returns a pointer of another type than its argument: by its type it cannot refer to the Rec.
+func counterOf(r *Rec) *Counter { return &Counter{N: r.N} }
+
+// sameRec may return its argument.
+func sameRec(r *Rec, pick bool) *Rec {
+	if pick {
+		return r
+	}
+	return &Rec{Name: "other"}
+}
+
+// TypeAlias: the result of a callee that received r cannot alias r (types), so r may be written afterwards.
+func TypeAlias(s string) (int, int, string) {
+	r := &Rec{Name: s, N: len(s)}
+	c := counterOf(r)
+	r.N = r.N + 5
+	var q *Rec
+	if s == "" {
+		q = &Rec{Name: "empty"}
+	} else {
+		q = &Rec{Name: s + "?"}
+	}
+	q.N = c.N
+	return r.N, q.N, q.Name
+}
+
+// RefusedSameTypeResult: the result could be r itself.
+func RefusedSameTypeResult(s string) int {
+	r := &Rec{Name: s}
+	q := sameRec(r, s == "")
+	r.N = 7
+	return q.N
+}
+
+// ---- reflect.DeepEqual against a package-level value whose maps and slices are non-empty ----
+
+type Level struct {
+	Name  string
+	Rules map[string]string
+	Tags  []string
+}
+
+var levelSkip = &Level{Name: "skip", Rules: map[string]string{"a": "skip", "b": "skip"}, Tags: []string{"t"}}
+var levelEmpty = &Level{Name: "e", Rules: map[string]string{}, Tags: []string{"t"}}
+
+func IsSkip(name string, keys []string, val string, tag string) (bool, bool) {
+	if len(name)%2 == 0 {
+		name, keys, val = "skip", []string{"b", "a", "b"}, "skip"
+		if len(tag) < 3 {
+			tag = "t"
+		}
+	}
+	l := &Level{Name: name, Rules: map[string]string{}, Tags: []string{tag}}
+	for _, k := range keys {
+		l.Rules[k] = val
+	}
+	var none *Level
+	return reflect.DeepEqual(l, levelSkip), reflect.DeepEqual(levelSkip, none)
+}
+
+// RefusedDeepEqualEmpty: the package-level value holds an empty map (nil and empty would have to be told apart).
+func RefusedDeepEqualEmpty(name string) bool {
+	return reflect.DeepEqual(&Level{Name: name}, levelEmpty)
 }
 
 // newRec is an oracle with FreshResults: the record it returns may be nil and is owned by the caller.
@@ -1278,7 +1454,7 @@ var Funcs = map[string]any{
 	"ArrayRange": ArrayRange, "TimeZero": TimeZero, "JoinCollapse": JoinCollapse,
 	"InOutPtr": InOutPtr, "Variadic": Variadic,
 	"ErrKind": ErrKind, "AnySwitch": AnySwitch, "Bytes": Bytes, "Bits": Bits, "UseHolder": UseHolder,
-	"UsePages": UsePages, "LocalIdentity": LocalIdentity, "UseStores": UseStores, "StoreOf": StoreOf, "UseFill": UseFill, "Effects": Effects, "EffectTail": EffectTail, "OwnedPtr": OwnedPtr, "OwnedPtrPanics": OwnedPtrPanics,
+	"UsePages": UsePages, "LocalIdentity": LocalIdentity, "UseStores": UseStores, "IsSkip": IsSkip, "LinkedElem": LinkedElem, "TypeAlias": TypeAlias, "StoreOf": StoreOf, "UseFill": UseFill, "Effects": Effects, "EffectPages": EffectPages, "EffectTail": EffectTail, "OwnedPtr": OwnedPtr, "OwnedPtrPanics": OwnedPtrPanics,
 	"UseFinder": UseFinder, "UseFinderPanics": UseFinderPanics,
 }
 
